@@ -344,6 +344,40 @@ def run(ck, F, E):
                     else:
                         break
                 ok = chain_ok
+        if not ok:
+            # `self.goto_line_number(n).map(|()| self.stack.push(StackFrame { return_location, .. }))`: the frame is built in a
+            # closure; its return_location is a capture of a parent local that copied self.location before the goto call
+            from lib import with_closures, closure_capture_expr
+            names = F.adt_fields("program::StackFrame")
+            goto = gs.calls_to("Program::goto_line_number")
+            for cb in with_closures(F, gs)[1:]:
+                for b, i, pl, rv, sp in aggregates(cb, "program::StackFrame"):
+                    e = strip_expr(cb.expr(rv["ops"][names.index("return_location")]))
+                    if e[0] == "place" and strip_expr(e[1]) == ("param", 0) and e[2] and e[2][0][0] == "(closure)":
+                        parent = gs
+                        for blk in parent.blocks:
+                            for st in blk["stmts"]:
+                                if st["k"] == "assign" and st["rv"]["k"] == "aggregate" and st["rv"].get("agg") == "closure" and \
+                                        str(st["rv"].get("closure", "")).endswith(cb.path[len(gs.path):]):
+                                    op = st["rv"]["ops"][int(e[2][0][1])]
+                                    # by value, or by reference to the local
+                                    l = op["place"]["local"] if op.get("k") in ("copy", "move") else None
+                                    for _ in range(4):
+                                        d = parent.unique_def(l) if l is not None else None
+                                        if d is None or d[0] != "assign":
+                                            break
+                                        rv2 = d[3]
+                                        if rv2["k"] == "ref" and not rv2["place"]["proj"]:
+                                            l = rv2["place"]["local"]
+                                            continue
+                                        if rv2["k"] == "use" and rv2["op"]["k"] in ("copy", "move"):
+                                            src = rv2["op"]["place"]
+                                            if [p for p in src["proj"] if p["k"] == "field" and p.get("name") == "location"]:
+                                                ok = bool(goto) and parent.dominates(d[1], goto[0].bb)
+                                                break
+                                            l = src["local"]
+                                            continue
+                                        break
         ck.require(ok, "C03:GOSUB:return-location", "GOSUB/RETURN", "the frame stores the location saved before the jump",
                    "GOSUB no longer saves the pre-jump location as the return address", gs.span)
     gl = get_fn(ck, F, "DimArray::get_linear_index")
